@@ -106,6 +106,14 @@ def check(ctx):
 
     R2 = ctx.rule("R2", "call_single fails iff the exit status is unsuccessful and allow_failure is not set; the child is awaited")
     status_rule(ctx, R2)
+    # every challenge type is paired with ITS OWN clean type (evaluated from call_challenge_hooks per challenge; shared with C05.R3)
+    from .c05 import challenge_hook_table, HOOK_TABLE as _HTAB
+    tab_ = challenge_hook_table(prog)
+    if tab_ is not None:
+        cb_ = prog.async_body("acmed::certificate::Certificate::call_challenge_hooks")
+        for k_, exp_ in _HTAB.items():
+            ctx.require(R1, tab_.get(k_) == exp_, "%s:%s" % (cb_.file, cb_.line), "%s: challenge hook type and clean hook type %s (expected %s)" % (k_, tab_.get(k_), exp_),
+                        ["acmed::certificate::Certificate::call_challenge_hooks", "hook-table", k_])
 
     order_rules(ctx)
     file_bracketing(ctx)
@@ -328,6 +336,9 @@ def env_rules(ctx):
                 okk, hit = unreachable_without(b, [c.bb], removed_edges=guards)
                 fill_only = bool(guards) and okk
             ctx.require(R6, fill_only, c.where(), "%s: a process environment variable never overwrites an existing entry (it only fills missing keys)" % short(b.key), [short(b.key), "process-env-overrides"])
+        # the documented `env` variable holds ALL the environment variables: the daemon's own environment is the bottom layer
+        ctx.require(R6, bool(ev) and bool(proc), "%s:%s" % (b.file, b.line), "%s: the daemon's own environment (std::env::vars) is copied into the hook data's env (below the configured variables)" % short(b.key),
+                    [short(b.key), "process-env-layer"])
         if ev:
             ctx.require(R6, bool(proc), ev[0].where(), "%s: process variables fill missing keys" % short(b.key), [short(b.key), "process-env-fill"])
         for c in conf:
